@@ -23,6 +23,19 @@
 //!   close                        one `poll_close`                      -> ok | pending | err
 //!   recv                         `poll_next` until a result or quiescence
 //!                                -> frame <len> <first> <sum> | err <class> | eof | pending
+//!
+//! The `tokio_util` codecs of `src/codec/` (used by the QUIC/WebRTC substreams, public API), stateless ops:
+//!   tu uvi|uviw <max|none> dec <chunk>,<chunk>…   `UnsignedVarint::new(max)` / `with_max_size(max)`; every chunk is
+//!                                appended to one `BytesMut` and `Decoder::decode` is called until it answers `None`
+//!                                or an error: `f<len>:<hash>` frame, `n` need more, `e:<class>` (each chunk's results end with `n` or an error)
+//!                                -> r=<results> rem=<bytes left in the buffer> alloc=<peak heap bytes>
+//!   tu uvi|uviw <max|none> enc <item>,<item>…     `Encoder::encode` of every item into one buffer
+//!                                -> r=<ok|e:<class>,…> dst=<len>:<hash>
+//!   tu uvi|uviw|id <arg> rt <item>,<item>…        encode all items, then decode the bytes with a fresh codec cut at
+//!                                every split point -> r=… dst=… dec=<frames, cut at 0> rem=<n> all=<1 | 0:<first differing cut>>
+//!   tu uvi - henc <item> | tu uvi - hdec <hex>     `UnsignedVarint::encode` / `UnsignedVarint::decode`
+//!   tu id <n> dec <chunks> | tu id <n> enc <items> | tu id - henc <item>   the same for `Identity`
+//! `<chunk>`: hex or `-`; `<item>`: hex, `-` or `<len>*<fill>`; `<hash>` = fold (h*31 + b) mod 1000003.
 
 use super::Substream;
 use crate::{
@@ -379,6 +392,9 @@ impl VerifBox for SubstreamBox {
             self.open(codec, pipe);
             return "ok w=0".into();
         }
+        if let ["tu", kind, arg, op, data] = t.as_slice() {
+            return tu(kind, arg, op, data).unwrap_or_else(|| "bad-op".into());
+        }
         if self.pair.is_none() {
             return "bad-op".into();
         }
@@ -404,5 +420,192 @@ impl VerifBox for SubstreamBox {
         };
         let w1 = self.pair.as_ref().expect("pair").wsink.outbound();
         format!("{obs} w={}", w1 - w0)
+    }
+}
+
+// ------------------------------------------------------------------------------------------------
+// `src/codec/{unsigned_varint,identity}.rs`
+
+fn tu_hash(b: &[u8]) -> String {
+    format!("{}:{}", b.len(), b.iter().fold(0u64, |h, x| (h * 31 + *x as u64) % 1_000_003))
+}
+
+fn tu_hex(s: &str) -> Option<Vec<u8>> {
+    if s == "-" {
+        return Some(Vec::new());
+    }
+    if s.is_empty() || s.len() % 2 != 0 || !s.bytes().all(|c| c.is_ascii_hexdigit()) {
+        return None;
+    }
+    Some(unhex(s))
+}
+
+fn tu_item(s: &str) -> Option<Vec<u8>> {
+    match s.split_once('*') {
+        Some((len, fill)) => {
+            let len: usize = len.parse().ok()?;
+            if len > (1 << 24) {
+                return None;
+            }
+            Some(vec![fill.parse::<u8>().ok()?; len])
+        }
+        None => tu_hex(s),
+    }
+}
+
+fn tu_err(e: &crate::Error) -> String {
+    match e {
+        crate::Error::IoError(kind) => format!("e:{kind:?}"),
+        crate::Error::InvalidData => "e:InvalidData".into(),
+        _ => "e:other".into(),
+    }
+}
+
+/// Feed the chunks to a `Decoder` the way `Framed` does: after every chunk decode until `None`.
+fn tu_decode<D>(mut codec: D, chunks: &[Vec<u8>]) -> String
+where
+    D: tokio_util::codec::Decoder<Item = bytes::BytesMut, Error = crate::Error>,
+{
+    let base = crate::verif::alloc_begin();
+    let mut buf = bytes::BytesMut::new();
+    let mut res = Vec::new();
+    for chunk in chunks {
+        buf.extend_from_slice(chunk);
+        let mut turns = 0usize;
+        loop {
+            turns += 1;
+            if turns > 100_000 {
+                res.push("loop".to_string());
+                break;
+            }
+            match codec.decode(&mut buf) {
+                Ok(Some(frame)) => res.push(format!("f{}", tu_hash(&frame))),
+                Ok(None) => {
+                    res.push("n".into());
+                    break;
+                }
+                Err(e) => {
+                    res.push(tu_err(&e));
+                    break;
+                }
+            }
+        }
+    }
+    let peak = crate::verif::alloc_peak_since(base);
+    format!("r={} rem={} alloc={}", res.join(","), buf.len(), peak)
+}
+
+fn tu_encode_all<E>(codec: &mut E, items: Vec<Vec<u8>>) -> (String, bytes::BytesMut)
+where
+    E: tokio_util::codec::Encoder<Bytes, Error = crate::Error>,
+{
+    let mut dst = bytes::BytesMut::new();
+    let mut res = Vec::new();
+    for item in items {
+        match codec.encode(Bytes::from(item), &mut dst) {
+            Ok(()) => res.push("ok".to_string()),
+            Err(e) => res.push(tu_err(&e)),
+        }
+    }
+    (res.join(","), dst)
+}
+
+fn tu_encode<E>(mut codec: E, items: Vec<Vec<u8>>) -> String
+where
+    E: tokio_util::codec::Encoder<Bytes, Error = crate::Error>,
+{
+    let (res, dst) = tu_encode_all(&mut codec, items);
+    format!("r={} dst={}", res, tu_hash(&dst))
+}
+
+/// Frames (and bytes left over) a fresh decoder yields when `bytes` arrive cut after `k` bytes.
+fn tu_split<D>(mut codec: D, bytes: &[u8], k: usize) -> (Vec<String>, usize)
+where
+    D: tokio_util::codec::Decoder<Item = bytes::BytesMut, Error = crate::Error>,
+{
+    let mut buf = bytes::BytesMut::new();
+    let mut frames = Vec::new();
+    for chunk in [&bytes[..k], &bytes[k..]] {
+        buf.extend_from_slice(chunk);
+        for _ in 0..100_000 {
+            match codec.decode(&mut buf) {
+                Ok(Some(frame)) => frames.push(format!("f{}", tu_hash(&frame))),
+                Ok(None) => break,
+                Err(e) => {
+                    frames.push(tu_err(&e));
+                    break;
+                }
+            }
+        }
+    }
+    (frames, buf.len())
+}
+
+/// Encode the items, then decode the produced bytes with a fresh codec at every split point.
+fn tu_roundtrip<C>(make: impl Fn() -> C, items: Vec<Vec<u8>>) -> String
+where
+    C: tokio_util::codec::Decoder<Item = bytes::BytesMut, Error = crate::Error>
+        + tokio_util::codec::Encoder<Bytes, Error = crate::Error>,
+{
+    let (res, dst) = tu_encode_all(&mut make(), items);
+    let first = tu_split(make(), &dst, 0);
+    let mut all = "1".to_string();
+    for k in 1..=dst.len() {
+        if tu_split(make(), &dst, k) != first {
+            all = format!("0:{k}");
+            break;
+        }
+    }
+    format!("r={} dst={} dec={} rem={} all={}", res, tu_hash(&dst), first.0.join(","), first.1, all)
+}
+
+fn tu(kind: &str, arg: &str, op: &str, data: &str) -> Option<String> {
+    use crate::codec::{identity::Identity, unsigned_varint::UnsignedVarint};
+    let list = |f: fn(&str) -> Option<Vec<u8>>| data.split(',').map(f).collect::<Option<Vec<_>>>();
+    match (kind, op) {
+        ("uvi" | "uviw", "dec" | "enc" | "rt") => {
+            let max = if arg == "none" { None } else { Some(arg.parse::<usize>().ok()?) };
+            let make = || match (kind, max) {
+                ("uviw", Some(max)) => Some(UnsignedVarint::with_max_size(max)),
+                ("uviw", None) => None,
+                (_, max) => Some(UnsignedVarint::new(max)),
+            };
+            make()?;
+            if op == "dec" {
+                Some(tu_decode(make()?, &list(tu_hex)?))
+            } else if op == "enc" {
+                Some(tu_encode(make()?, list(tu_item)?))
+            } else {
+                Some(tu_roundtrip(|| make().expect("checked"), list(tu_item)?))
+            }
+        }
+        ("uvi", "henc") => Some(match UnsignedVarint::encode(tu_item(data)?) {
+            Ok(out) => format!("ok {}", tu_hash(&out)),
+            Err(e) => tu_err(&e),
+        }),
+        ("uvi", "hdec") => {
+            let mut buf = bytes::BytesMut::from(&tu_hex(data)?[..]);
+            Some(match UnsignedVarint::decode(&mut buf) {
+                Ok(frame) => format!("ok f{} rem={}", tu_hash(&frame), buf.len()),
+                Err(e) => tu_err(&e),
+            })
+        }
+        ("id", "dec" | "enc" | "rt") => {
+            let n: usize = arg.parse().ok()?;
+            // `Identity::new(0)` panics by contract (`assert!(payload_len != 0)`)
+            let codec = Identity::new(n);
+            if op == "dec" {
+                Some(tu_decode(codec, &list(tu_hex)?))
+            } else if op == "enc" {
+                Some(tu_encode(codec, list(tu_item)?))
+            } else {
+                Some(tu_roundtrip(|| Identity::new(n), list(tu_item)?))
+            }
+        }
+        ("id", "henc") => Some(match Identity::encode(tu_item(data)?) {
+            Ok(out) => format!("ok {}", tu_hash(&out)),
+            Err(e) => tu_err(&e),
+        }),
+        _ => None,
     }
 }
